@@ -274,16 +274,5 @@ def _r4(ctx):
 
 
 def _verdict(run, rule, fn, construct, r, m):
-    loc = m.loc(fn, fn.node)
-    if r["verdict"] == "equivalent":
-        run.ok(rule, fn.qualname, construct,
-               "decision table equals the reference on all %d joint rows"
-               % r["rows"], loc=loc)
-    elif r["verdict"] == "violation":
-        run.fail(rule, fn.qualname, construct,
-                 "outcome differs from the reference: live %s, reference %s"
-                 % (r["witness"]["live"], r["witness"]["reference"]),
-                 loc=loc, witness=r["witness"])
-    else:
-        run.soft_error("%s: %s consults a predicate outside the reference "
-                       "vocabulary: %s" % (rule, fn.qualname, r["atoms"]))
+    from rules.common import verdict
+    verdict(run, rule, fn, construct, r, m)
